@@ -187,6 +187,8 @@ def main():
         mod = importlib.import_module('search.' + cfg['search'])
         hints = [d for d in (corr_summary or {}).get('disagreements', [])]
         res = mod.run(seed=seed, tier=tier, hints=hints, broken=bool(broken))
+        import implrun
+        implrun.restore_random()          # an extreme case seed reroutes random.*: undo after the search
         found = res['violations']
         search_info = res.get('info', {})
 
